@@ -40,7 +40,7 @@ MANIFEST = dict(
     note=("Trusted: Lean kernel, Mathlib, axioms propext/Classical.choice/Quot.sound; the hand-written model "
           "(lean/templates/Kepler.lean) and its bit-exact correspondence run; the idealisation binary64 -> real "
           "numbers (theorems are about real arithmetic; rounding is only measured, by the predicates). "
-          "Known finding: phase_angle raises ValueError on degenerate (collinear) but feasible distance triples."),
+          "phase_angle: the clamp of a27247f is part of the model; flat feasible triples are evaluated by the predicates."),
     technique="Lean 4 proof over the reals (bisection invariant, IVT, monotonicity) + model/implementation correspondence check",
     ref='6 C11')
 
@@ -247,14 +247,11 @@ def pred(ctx, name, inp, klass=None):
 
 
 # ------------------------------------------------------------------ generators
-def budget(ctx, key, n):
-    """The runner keeps the first 500 failures of a shard.  Inputs in the region of a LISTED finding fail by the
-    hundred; to keep new failures visible only the first n such inputs per shard are evaluated, the others are counted."""
-    b = ctx.__dict__.setdefault('_budget', {})
-    b[key] = b.get(key, 0) + 1
-    if b[key] == n + 1:
-        ctx.notes.append('known-finding region %s: only the first %d inputs of each shard are evaluated' % (key, n))
-    return b[key] <= n
+def size(ctx, quick, thorough):
+    """Number of samples: the tier's size; when the source of a modelled function changed (ctx.scale > 1) at least
+    the thorough size (the most exhaustive enumeration this module has; it fits in about two minutes)."""
+    n = ctx.n(quick, thorough)
+    return max(n, thorough) if ctx.scale > 1 else n
 
 
 def gen_e(rng, hot):
@@ -395,10 +392,10 @@ def generate(ctx, shard=0, nshards=1):
             tie('k_angle_rsub', [Angle(x)._deg, 180.0], lambda: (180.0 - Angle(x))._deg, 'angle_helpers')
         ctx.sample({'call': 'kepler_equation(0.99, Angle(2.0))', 'expected': 'E=32.361007, v=152.542134 (docstring)'})
         ctx.sample({'call': 'phase_angle(38.21235348693304, 12.827944384397142, 51.04029787133018)',
-                    'expected': 'ValueError (known finding: feasible flat triangle)'})
+                    'expected': '180.0 (flat triangle; raised ValueError before a27247f)'})
 
     # ---- Kepler's equation
-    for _ in range(ctx.n(24000, 800000) // nshards + 1):
+    for _ in range(size(ctx, 24000, 800000) // nshards + 1):
         e = gen_e(rng, hot)
         m = gen_m(rng)
         klass = ('e~1' if e > 0.99 else 'e~0' if e < 0.05 else 'e_mid') + ('/M~k180' if abs(wrap180(m * 2) / 2) < 1e-5 else '')
@@ -410,7 +407,7 @@ def generate(ctx, shard=0, nshards=1):
             tie('kepler_equation', [e, md],
                 lambda: tuple(x._deg for x in kepler_equation(e, Angle(md))), 'kepler_equation/deg')
     # ---- speeds, orbit length
-    for _ in range(ctx.n(12000, 300000) // nshards + 1):
+    for _ in range(size(ctx, 12000, 300000) // nshards + 1):
         e = gen_e(rng, hot)
         a = gen_a(rng)
         tie('velocity_perihelion', [e, a], lambda: velocity_perihelion(e, a), 'velocity')
@@ -426,17 +423,15 @@ def generate(ctx, shard=0, nshards=1):
         for a in (0.3, 1.0, 100.0):
             pred(ctx, 'length_switch_continuity', [a, h], 'length_switch_continuity/hot')
     # ---- phase angle / illuminated fraction
-    for _ in range(ctx.n(12000, 300000) // nshards + 1):
+    for _ in range(size(ctx, 12000, 300000) // nshards + 1):
         sd, ed, sed = gen_triple(rng)
         tie('phase_angle', [sd, ed, sed], lambda: phase_angle(sd, ed, sed)._deg, 'phase')
         tie('illuminated_fraction', [sd, ed, sed], lambda: illuminated_fraction(sd, ed, sed), 'phase')
         if feasible(sd, ed, sed):
             dg = degeneracy(sd, ed, sed)
-            if dg <= 1e-14 and not budget(ctx, 'flat_triangle', 150):
-                continue    # region of a listed finding: evaluated on the first inputs of the shard only (see budget)
             pred(ctx, 'phase_illuminated', [sd, ed, sed, dg], 'phase_illuminated/' + ('flat' if dg < 1e-12 else 'proper'))
     # ---- node passages
-    for _ in range(ctx.n(10000, 250000) // nshards + 1):
+    for _ in range(size(ctx, 10000, 250000) // nshards + 1):
         r = rng.random()
         omega = rng.choice([0.0, 90.0, 180.0, 270.0, 360.0, 1e-9, 179.999999999, 180.000000001, 359.999999999]) \
             if r < 0.25 else rng.uniform(0.0, 360.0)
